@@ -6,7 +6,7 @@ import shutil
 import time
 
 from .kernel import HarnessError, rng_for, stable_hash
-from .runner import Stats, load_known, match_known
+from .runner import Stats, digest_dump, load_known, match_known
 
 PROP = "C11"
 PLAN = {"quick": {"budget_s": 45, "max_runs": 200000, "workers_multiple_of": 4},
@@ -132,6 +132,7 @@ def worker(seed, widx, nworkers, plan, scratch):
         rng, spec, cfg = draw(seed, i)
         res = _run(spec, cfg, scratch, rng=rng)
         n += 1
+        digest_dump(i, res["digest"])
         st["runs"] += 1
         st["steps"] += res["steps"]
         st["sim_seconds"] += res["sim_seconds"]
